@@ -6,6 +6,7 @@ import (
 	"encoding/json"
 	"flag"
 	"fmt"
+	"go/build"
 	"go/types"
 	"os"
 	"path/filepath"
@@ -145,6 +146,12 @@ func cmdCheck(args []string) int {
 	loadKnownKeys(*verif)
 	cfgs := core.Configs[:1]
 	if *tier == "thorough" {
+		cfgs = core.Configs
+	} else if ex := filesOutsideDefaultBuild(*repo); len(ex) > 0 {
+		// "cover what the build covers": the quick tier analyses the default configuration only as long
+		// as that is the whole module. A non-test source file the default build leaves out (a build
+		// constraint, a _GOOS/_GOARCH suffix) is code some user builds: all configurations are analysed.
+		fmt.Printf("quick tier: %d source file(s) outside the default build (%s): analysing every configuration\n", len(ex), strings.Join(ex, ", "))
 		cfgs = core.Configs
 	}
 	var reports []*core.Report
@@ -443,4 +450,34 @@ func coversRules(rn, rp *core.Report) bool {
 		}
 	}
 	return true
+}
+
+// filesOutsideDefaultBuild lists the non-test Go files of the module's package directories that
+// the default build configuration does not compile.
+func filesOutsideDefaultBuild(repo string) []string {
+	var out []string
+	ctx := build.Default
+	ctx.CgoEnabled = false
+	filepath.Walk(repo, func(path string, info os.FileInfo, err error) error {
+		if err != nil {
+			return nil
+		}
+		if info.IsDir() {
+			n := info.Name()
+			if path != repo && (strings.HasPrefix(n, ".") || strings.HasPrefix(n, "_") || n == "testdata" || n == "vendor") {
+				return filepath.SkipDir
+			}
+			return nil
+		}
+		if !strings.HasSuffix(path, ".go") || strings.HasSuffix(path, "_test.go") {
+			return nil
+		}
+		ok, merr := ctx.MatchFile(filepath.Dir(path), filepath.Base(path))
+		if merr != nil || !ok {
+			rel, _ := filepath.Rel(repo, path)
+			out = append(out, rel)
+		}
+		return nil
+	})
+	return out
 }
